@@ -17,6 +17,7 @@ def run(rep):
     rep.guard(k2, rep, w)
     rep.guard(k3, rep, w)
     rep.guard(k4, rep, w)
+    rep.guard(k5, rep, w)
     import c06
     rep.guard(c06.s2, rep, w)     # a class declared in a local scope is a captured local of its own methods: scope exit (also by break /
     rep.guard(c06.s4, rep, w)     # continue) has to close it, and the open-upvalue list must keep every entry
@@ -277,3 +278,66 @@ def k4(rep, w):
     r.check(all(ev.get(v) for v in want_true) and ev.get('Function') is False, 'the predicate accepts %s and skips plain functions' % want_true,
             'the enclosing-method search accepts %s: a method kind it skips (e.g. static methods) makes `super` inside such a method use the receiver of some outer method instead' %
             sorted(v for v in variants if ev.get(v)), sp.loc())
+
+
+def vm_arm_callees(w):
+    """opcode name -> names called in the arm of Vm::run that handles it"""
+    runf = w.require_fn(VM + 'run', 'C07')
+    ops = emit.opcode_table(w)
+    dom = runf.dominators()
+    res = {}
+    for bi in sorted(runf.normal_blocks()):
+        b = runf.blocks[bi]
+        t = b['t']
+        if t['t'] != 'switch':
+            continue
+        pl = op_place(t['d'])
+        if pl is None:
+            continue
+        cmpv, consts = None, {}
+        for s_ in b['s']:
+            rr = s_.get('r', {})
+            if rr.get('rv') == 'cast' and op_const(rr['o']) is not None and not s_['d'].get('p'):
+                consts[s_['d']['l']] = op_const(rr['o']).get('v')
+            if rr.get('rv') == 'bin' and rr['op'] == 'Eq' and s_['d']['l'] == pl['l']:
+                for o in (rr['a'], rr['b']):
+                    p2 = op_place(o)
+                    if p2 is not None and p2['l'] in consts:
+                        cmpv = consts[p2['l']]
+        if cmpv is None or cmpv not in ops:
+            continue
+        tt = t['else']
+        res[ops[cmpv]] = {callee_name(runf.blocks[x]['t']) for x in dom if tt in dom[x] and runf.blocks[x]['t']['t'] == 'call'}
+    return res
+
+
+def k5(rep, w):
+    """inside a static method `Self` is the class the call came through: it has to be computed from the receiver when the code runs
+    (a static method declared on a base class is also reachable through every subclass), so the code for `Self` ends in an
+    instruction whose handler asks the VM for the class of the value on the stack"""
+    r = rep.rule('K5', '`Self` is compiled to an instruction that takes the class of the receiver at run time', floor=2)
+    arms = vm_arm_callees(w)
+    if len(arms) < 40:
+        raise Broken('C07', 'anchor', 'Vm::run: only %d opcode arms recognised' % len(arms))
+    VAL = 'yarel::value::Value'
+    class_of = set()
+    for op, callees in arms.items():
+        for n in callees:
+            h = w.fns.get(n)
+            if h is None or not n.startswith(VM):
+                continue
+            asks = any(callee_name(t) == VM + 'get_class' for _, t in h.calls())
+            makes = any(s_.get('r', {}).get('rv') == 'agg' and s_['r'].get('adt') == VAL and s_['r'].get('v') == 'ObjClass' for b in h.blocks for s_ in b['s'])
+            if asks and makes:
+                class_of.add(op)
+    if not r.check(bool(class_of), 'the VM has an instruction that replaces a value by its class (%s)' % sorted(class_of),
+                   'no instruction handler derives a class from the value on the stack any more'):
+        return
+    cs = w.require_fn(P + 'cap_self', 'C07')
+    evs = emit.emissions(w, cs)
+    through = {bi for (bi, kind, opn, det) in evs if opn in class_of}
+    loads = {bi for bi, t in cs.calls() if callee_name(t) in (P + 'variable', P + 'named_variable')}
+    r.check(bool(through) and emit.all_clean_paths_pass(cs, through) and bool(loads) and emit.all_clean_paths_pass(cs, loads),
+            'cap_self: every error-free path loads the receiver and emits %s' % sorted(class_of),
+            'the code compiled for `Self` does not end in %s on every path (emits %s): `Self` no longer follows the class the static method was '
+            'invoked through (a factory inherited by a subclass builds the base class)' % (sorted(class_of), sorted({opn for (_, _, opn, _) in evs if opn})), cs.loc())
